@@ -836,7 +836,7 @@ class CallMixin:
             return cn in ('NoneType', 'object')
         if isinstance(v, Obj):
             if v.kind == 'seq':
-                return cn == (v.cls if v.cls in ('list', 'tuple') else 'tuple') or cn == 'object'
+                return cn == (v.cls if v.cls in ('list', 'tuple', 'ndarray') else 'tuple') or cn == 'object'
             if v.kind == 'arr':
                 return cn in ('ndarray', 'object')
             if cn in ('list', 'tuple', 'ndarray', 'str', 'int', 'float', 'dict', 'bool') and v.cls:
